@@ -60,9 +60,17 @@ func (k msgServer) AddFeeToDispute(goCtx context.Context,
 	if msg.Amount.Amount.GT(fee) {
 		msg.Amount.Amount = fee
 	}
-	// dispute fee payer
+	// dispute fee payer: a payer who already paid towards this dispute has the new payment added to its record
+	// (the record is what the refund is computed from; overwriting it lost the earlier payment)
+	paid := msg.Amount.Amount
+	prevPayment, err := k.Keeper.DisputeFeePayer.Get(ctx, collections.Join(dispute.DisputeId, sender.Bytes()))
+	if err == nil {
+		paid = paid.Add(prevPayment.Amount)
+	} else if !errors.Is(err, collections.ErrNotFound) {
+		return nil, err
+	}
 	if err := k.Keeper.DisputeFeePayer.Set(ctx, collections.Join(dispute.DisputeId, sender.Bytes()), types.PayerInfo{
-		Amount:   msg.Amount.Amount,
+		Amount:   paid,
 		FromBond: msg.PayFromBond,
 	}); err != nil {
 		return nil, err
